@@ -430,6 +430,14 @@ theorem run_stop_prefix (e : El σ α β) (p : α → Bool) (N : Nat) (hN : 0 < 
           rw [runFillCompute_short e N rst s _ hlen]
         · conv => rhs; rw [hsplit, List.any_append, hany, Bool.true_or]
 
+/-- block size 2, the element refuses the values `≥ 5`: `run` yields the blocks `[0,1]`, `[2,3]` and raises -/
+example : runFillComputeX (ElX.stopOn (lstEl : El (List Nat) Nat (List Nat)) (fun x => decide (5 ≤ x)) false) 2 true false []
+    [0, 1, 2, 3, 4, 5, 6] = ([[0, 1], [2, 3]], [4], true) := by decide +kernel
+
+/-- `request_raises_only_buffered` is not vacuous: a `buffer_input` adapter with a refused value in `_buffer_in` -/
+example : (requestX (ElX.stopOn (lstEl : El (List Nat) Nat (List Nat)) (fun x => decide (4 ≤ x)) false) 3 true true false
+    { el := [0, 1, 2], nCount := 3, bufIn := [3, 4], bufOut := [] }).2.2 = true := by decide
+
 /-- block size 3, the element refuses the values `≥ 4`, Split block size 2 -/
 example : splitX (ElX.stopOn (lstEl : El (List Nat) Nat (List Nat)) (fun x => decide (4 ≤ x)) false) .atCall 3 true false
     false (some 2) [] [0, 1, 2, 3, 4, 5, 6, 7] = ([[0, 1, 2]], false) := by decide +kernel
